@@ -158,6 +158,9 @@ class JSONSerialization(Serialization):
             return {'type': cls.json_schema_literal_types[class_]}
         elif class_ in cls.json_schema_class_types:
             return {'type': cls.json_schema_class_types[class_]}
+        elif issubclass(class_, (list, tuple)):
+            # (typed lists, namedtuples: they serialize to an array too)
+            return {'type': 'array'}
         elif issubclass(class_, Parameterized):
             return {'type': 'object', 'properties': class_.param.schema(safe)}
         else:
